@@ -105,6 +105,24 @@ def c02(ctx):
     _codec_fail_to_result(res, fails, 'C02')
     nun = nbr = 0
     if not ctx.get('replay'):
+        # the remaining-length field itself, on both sides of every byte-count boundary and up to the maximum, against the reference table
+        import mqtt.pdu as pdu
+        def ref_len(v):
+            out = bytearray()
+            while True:
+                b, v = v % 128, v // 128
+                out.append(b | (0x80 if v else 0))
+                if not v:
+                    return bytes(out)
+        for v in [0, 1, 127, 128, 129, 16383, 16384, 16385, 2097151, 2097152, 2097153, 2097152 + 16384, 3 * 2097152 + 5, 268435454, 268435455] + [rng.randrange(268435456) for _ in range(2000)]:
+            try:
+                got = bytes(pdu.encodeLength(v))
+            except Exception as e:
+                got = ('raised ' + type(e).__name__).encode()
+            if got != ref_len(v):
+                res.violations.append(dict(what='C02: remaining length %d is encoded as %s, the standard prescribes %s' % (v, got.hex(), ref_len(v).hex()),
+                                           signature='C02 remlen', case=dict(kind='remlen', fields=dict(v=v))))
+                break
         f2, nun = cc.check_unrepresentable()
         _codec_fail_to_result(res, f2, 'C02')
         if ctx['model_ok']:
@@ -113,6 +131,17 @@ def c02(ctx):
         # session-level: bytes handed to transport.write() during live sessions are the reference encoding
         f4, nw = _session_writes(ctx, res)
         _session_reads(ctx, res)
+        # long and large sessions (many reconnections alternating protocol versions, many retransmissions, 64 KiB payloads, 200-topic
+        # requests): every write must equal the model's and parse with the reference decoder under the connection's version
+        import props_session, longrun
+        if ctx['model_ok']:
+            lr = longrun.for_prop('C02', ctx)
+            r2 = Result()
+            tr = props_session.run_scenarios('C02', ctx, lr, r2, label='long')
+            r2.all_traces = [(e[0], e[1], t) for e, t in zip(lr, tr)]
+            props_session.strict_decode_writes(ctx, r2, 'C02')
+            res.violations += r2.violations; res.divergences += r2.divergences
+            res.extra['long_scenarios'] = {n: len(l) for n, l in lr}
     res.evaluations = stats['cases'] + nun + nbr
     res.programs = stats['cases']
     for (k, f) in cases:
@@ -366,6 +395,11 @@ def _c03_multi(ctx, rng):
            'publish 0 %s b:41 1 0' % s_tok('t')]
     big = publish_pkt('big', b'z' * (65536 - 1 - 3 - 5), 0)            # a packet of exactly 65536 bytes
     assert len(big) == 65536
+    huge = publish_pkt('huge', b'x' * (2097152 + 777), 0)            # four-byte remaining length
+    for cuts in ([1], [2], [3], [4], [5], [1, 2, 3, 4, 5], [4, 65540]):
+        sb = huge + ack(0x40, 1)
+        pos = [0] + cuts + [len(sb)]
+        out.append((pre + ['recv 0 %s' % hx(sb[a:b]) for a, b in zip(pos, pos[1:])], pre + ['recv 0 %s' % hx(huge), 'recv 0 %s' % hx(ack(0x40, 1))], len(pre), None))
     mid_ = publish_pkt('big', b'y' * 70000, 1, mid=20)
     for pk in ([big], [big, ack(0x40, 1)], [mid_, ack(0x40, 1), publish_pkt('t', b'q' * (2 * 65536 - len(mid_) - 4 - 6), 0)], [ack(0x40, 1), big, big]):
         sb = b''.join(pk)
